@@ -545,6 +545,7 @@ func init() {
 	regV("log.New", func(m *Machine, g *Goroutine, a []Value) Value {
 		return PtrVal{obj: m.newObj(OpaqueVal{tag: "logger"}, nil, "logger")}
 	})
+	regV("github.com/vipnode/ether.Print", func(m *Machine, g *Goroutine, a []Value) Value { return StrVal{s: "<ether>"} })
 	regV("log.Flags", func(m *Machine, g *Goroutine, a []Value) Value { return mkInt(0) })
 
 	// ---------- fmt ----------
@@ -582,10 +583,6 @@ func init() {
 		p := a[0].(PtrVal)
 		delete(m.builders, p.obj)
 		return nil
-	})
-	regV("unicode.ToLower", func(m *Machine, g *Goroutine, a []Value) Value {
-		r := cint(a[0], "ToLower")
-		return mkInt(int64([]rune(strings.ToLower(string(rune(r))))[0]))
 	})
 }
 
